@@ -62,6 +62,12 @@ fn step(w: &mut World, op: &J, how: usize) -> Result<(), String> {
     let name = op["op"].as_str().unwrap();
     match name {
         "parse" => { let s = slot_ix(&op["s"]); let v: Value = sonic_rs::from_str(op["text"].as_str().unwrap()).map_err(|e| e.to_string())?; w.created += 1; w.slots[s] = Some(v); }
+        "parse_bad" => {
+            // rejected only after the arena was built: must return Err and leave nothing alive
+            let text: Vec<u8> = op["text"].as_str().unwrap().bytes().map(|b| if b == b'?' { 0xff } else { b }).collect();
+            w.created += 1;
+            if sonic_rs::from_slice::<Value>(&text).is_ok() { return Err("a document the reference rejects was accepted".into()); }
+        }
         "new" => { let s = slot_ix(&op["s"]); w.slots[s] = Some(match op["what"].as_str().unwrap() { "arr" => sjson!([]), "obj" => sjson!({}), _ => sjson!(7) }); }
         "build" => { let s = slot_ix(&op["s"]); w.slots[s] = Some(match op["what"].as_str().unwrap() { "obj1" => sjson!({"a": 8}), _ => sjson!([8, 9]) }); }
         "clone" => {
